@@ -118,6 +118,11 @@ func (g *qGen) genSelectJoin(w *qWorld, depth int) qQuery {
 	wh, cwh := "", "None"
 	if g.r.Intn(3) != 0 {
 		c := g.cond(cols, 2)
+		if g.lateral && g.r.Intn(6) == 0 {
+			// the condition is a bare value (a column holding 'true' / '1' / 't' / text, a number, an arithmetic
+			// result): a row is kept iff that value, read as a ternary, is TRUE
+			c = g.scalar(cols, 1)
+		}
 		wh, cwh = " WHERE "+c.sql, "(Some "+c.coq+")"
 	}
 	// a correlated sub-query inside the WHERE clause or the select list.  Sub-queries are not expressions of the
@@ -286,6 +291,13 @@ func (g *qGen) genBucket(w *qWorld) qQuery {
 		}
 	default: // set operators
 		n := 1 + g.r.Intn(3)
+		with := ""
+		if g.r.Intn(2) == 0 {
+			// both sides may refer to one common table expression: the references must not share their records
+			w.ctes = []*qCTE{g.genCTE(w)}
+			with = "WITH " + w.ctes[0].def + " "
+			defer func() { w.ctes = nil }()
+		}
 		side := func() (string, string) {
 			src := g.tableSrc(w)
 			cols := shiftCols(src.cols)
@@ -301,7 +313,7 @@ func (g *qGen) genBucket(w *qWorld) qQuery {
 		rs, rc := side()
 		op := [][2]string{{"UNION", "SUnion"}, {"EXCEPT", "SExcept"}, {"INTERSECT", "SIntersect"}}[g.r.Intn(3)]
 		all := g.r.Intn(2) == 0
-		q.sql = ls + " " + op[0] + map[bool]string{true: " ALL ", false: " "}[all] + rs
+		q.sql = with + ls + " " + op[0] + map[bool]string{true: " ALL ", false: " "}[all] + rs
 		q.coq = fmt.Sprintf("(Q (BSet %s %s %s %s) [] None None)", op[1], coqBool(all), lc, rc)
 		q.shape = "set-" + strings.ToLower(op[0])
 	}
